@@ -1,9 +1,187 @@
-(* C20 — Spreadsheet inputs convert to the network and services they describe. (work in progress) *)
+(* C20 — Spreadsheet inputs convert to the network and services they describe.
+   Property theorems only; the proofs are in Proofs/Sheet*.v, the model in Model/Sheet.v.
+
+   Vocabulary
+     convert w                the model of xls_to_json_data on the parsed rows w (Nodes / Links / Eqpt / Roadms)
+     nodes_of / links_of_w / eqpts_of_w   the data objects built from the rows (defaults applied)
+     final_nodes w            the node list after sanity_check's correction (ILA declared on degree <> 2 -> ROADM)
+     uid_list ns ls es        (Proofs/Sheet3.v) the list, in order:  trx c, roadm c  for every ROADM site c;
+                              west/east fused spans in c  for every FUSED site;  fiber (A -> Z)-cable_east,
+                              fiber (Z -> A)-cable_west  for every Links row;  west/east edfa in c  for every ILA
+                              site without Eqpt row;  east/west edfa in A to Z  for every Eqpt row
+     render                   the byte string of a uid (the f-strings of convert.py)
+     wellformed w             site names contain none of ' ' ')' '|';  no link from a site to itself;  FUSED sites
+                              have degree 2 and no Eqpt row.  The last three exclude regions where convert.py neither
+                              rejects nor converts properly (open findings, see the *_refuted theorems)
+     sane ns ls es            the eight documented sanity rules, as propositions (Proofs/Sheet.v)
+     violation ns ls es       one of the eight rules is broken (Proofs/Sheet7.v)
+     is_line u                u is a fibre, an amplifier or a fused element
+     one_succ cs u / one_pred cs u   u has exactly one successor / predecessor in the connection list cs *)
 From Coq Require Import QArith.
-From Verif Require Import Prelude Model.Sheet Proofs.Sheet.
+From Verif Require Import Prelude Model.Sheet.
+From Verif Require Import Proofs.Sheet Proofs.Sheet2 Proofs.Sheet3 Proofs.Sheet4 Proofs.Sheet5 Proofs.Sheet6 Proofs.Sheet7.
 Open Scope Z_scope.
 
+(* ---- accepted workbooks ---- *)
+Theorem C20_sheet_structure : forall w n, convert w = Ok n -> wellformed w ->
+  let ns := final_nodes w in let ls := links_of_w w in let es := eqpts_of_w w in
+  uids n = uid_list ns ls es /\
+  (forall l, In l ls -> exists e1 e2, In e1 (elements n) /\ In e2 (elements n) /\
+     el_uid e1 = UFiber (l_from l) (l_to l) (s_cable (l_east l)) /\ el_c e1 = fiber_content (l_east l) /\
+     el_uid e2 = UFiber (l_to l) (l_from l) (s_cable (l_west l)) /\ el_c e2 = fiber_content (l_west l)) /\
+  NoDup (names n) /\
+  (forall a b, In (a, b) (connections n) -> In a (uids n) /\ In b (uids n)) /\
+  (forall u, In u (uids n) -> is_line u -> one_succ (connections n) u /\ one_pred (connections n) u).
+Proof. exact sheet_structure. Qed.
+Print Assumptions C20_sheet_structure.
+
+(* west side of a Links row: every empty cell takes the east value (itself defaulted to 80 km / SSMF / 0.2 dB/km) *)
 Theorem C20_west_defaults_to_east : forall r,
+  l_east (mk_link r) = fill_side default_side (lr_east r) /\
   l_west (mk_link r) = fill_side (l_east (mk_link r)) (lr_west r).
-Proof. exact west_defaults_to_east. Qed.
+Proof. intros r. split; reflexivity. Qed.
 Print Assumptions C20_west_defaults_to_east.
+
+(* the same degree statement on names (strings), using injectivity of rendering on well-formed names *)
+Theorem C20_line_degree_names : forall w n, convert w = Ok n -> wellformed w ->
+  forall u, In u (uids n) -> is_line u ->
+  (exists v, In (render u, v) (named_conns n) /\ forall v', In (render u, v') (named_conns n) -> v' = v) /\
+  (exists p, In (p, render u) (named_conns n) /\ forall p', In (p', render u) (named_conns n) -> p' = p).
+Proof. exact line_degree_names. Qed.
+Print Assumptions C20_line_degree_names.
+
+Theorem C20_render_injective : forall u v, uid_names_ok u -> uid_names_ok v -> render u = render v -> u = v.
+Proof. exact render_inj. Qed.
+Print Assumptions C20_render_injective.
+
+(* the settings of Eqpt row (A, Z): east on the element feeding the fibre A -> Z, west on the element fed by Z -> A *)
+Theorem C20_eqpt_facing : forall w n, convert w = Ok n -> wellformed w ->
+  forall e, In e (eqpts_of_w w) ->
+  (exists el k, In el (elements n) /\ el_uid el = UEdfaTo East (e_from e) (e_to e) /\ el_c el = amp_content (e_east e) /\
+                In (UEdfaTo East (e_from e) (e_to e), UFiber (e_from e) (e_to e) k) (connections n) /\
+                In (UFiber (e_from e) (e_to e) k) (uids n)) /\
+  (exists el k, In el (elements n) /\ el_uid el = UEdfaTo West (e_from e) (e_to e) /\ el_c el = amp_content (e_west e) /\
+                In (UFiber (e_to e) (e_from e) k, UEdfaTo West (e_from e) (e_to e)) (connections n) /\
+                In (UFiber (e_to e) (e_from e) k) (uids n)).
+Proof. exact eqpt_facing. Qed.
+Print Assumptions C20_eqpt_facing.
+
+(* ---- rejected workbooks ---- *)
+Theorem C20_sanity_rejects : forall w, violation (nodes_of w) (links_of_w w) (eqpts_of_w w) ->
+  (exists r, In r rules /\ convert w = Err (topo_err r)) /\ forall n, convert w <> Ok n.
+Proof. exact sanity_rejects. Qed.
+Print Assumptions C20_sanity_rejects.
+
+Theorem C20_accepted_is_sane : forall w n, convert w = Ok n -> sane (nodes_of w) (links_of_w w) (eqpts_of_w w).
+Proof. exact accepted_is_sane. Qed.
+Print Assumptions C20_accepted_is_sane.
+
+(* ---- the full statement without the `wellformed` guard is false of the faithful model: witnesses (replayed on
+        gnpy by the harness: corpus/C20/f20a..d) ---- *)
+Theorem C20_self_loop_refuted : exists n, convert w_self_loop = Ok n /\ ~ NoDup (names n).
+Proof. exact self_loop_refuted. Qed.
+Print Assumptions C20_self_loop_refuted.
+Theorem C20_fused_degree_1_refuted :
+  sane (nodes_of w_fused_1) (links_of_w w_fused_1) (eqpts_of_w w_fused_1) /\
+  convert w_fused_1 = Err "IndexError:site_degree"%string.
+Proof. exact fused_degree_1_refuted. Qed.
+Print Assumptions C20_fused_degree_1_refuted.
+Theorem C20_fused_degree_3_refuted : exists n, convert w_fused_3 = Ok n /\
+  In (UFiber "C" "F" "") (uids n) /\ forall v, ~ In (UFiber "C" "F" "", v) (connections n).
+Proof. exact fused_degree_3_refuted. Qed.
+Print Assumptions C20_fused_degree_3_refuted.
+Theorem C20_eqpt_on_fused_refuted : exists n, convert w_eqpt_on_fused = Ok n /\
+  In (UEdfaTo East "F" "B") (uids n) /\
+  forall a b, In (a, b) (connections n) -> a <> UEdfaTo East "F" "B" /\ b <> UEdfaTo East "F" "B".
+Proof. exact eqpt_on_fused_refuted. Qed.
+Print Assumptions C20_eqpt_on_fused_refuted.
+
+(* ---- service sheet ---- *)
+Theorem C20_service_spec : forall equipment bidir r q, request_element equipment bidir r = Ok q ->
+  exists trx modes sp,
+    id_str (q_trx r) = Some trx /\ assoc trx equipment = Some modes /\ r_trx q = trx /\
+    r_mode q = id_str (q_mode r) /\ (forall m, r_mode q = Some m -> In m modes) /\
+    q_spacing r = Some sp /\ ~ sp == 0 /\
+    r_spacing_hz q == sp * 1000000000 /\
+    r_bw_bps q == match q_bw r with Some b => b * 1000000000 | None => 0 end /\
+    r_power_dbm q = q_power r /\ r_nbch q = option_map qtrunc (q_nbch r) /\
+    r_src q = ("trx " +s pystr (ostr_o (q_src r))) /\ r_dst q = ("trx " +s pystr (ostr_o (q_dst r))) /\
+    r_nodes q = (if seqb (ostr "" (q_path r)) "" then [] else split bar (ostr "" (q_path r))) /\
+    r_loose q = is_loose_cell (q_loose r) /\
+    r_disj q = (match id_str (q_disj r) with Some s => split bar s | None => [] end) /\
+    r_id q = id_str (q_id r) /\ r_bidir q = bidir.
+Proof. exact request_element_spec. Qed.
+Print Assumptions C20_service_spec.
+
+Theorem C20_pathsync_spec : forall q,
+  (r_disj q = [] -> pathsync q = None) /\
+  (r_disj q <> [] -> pathsync q = Some (r_id q, r_id q :: map Some (r_disj q))).
+Proof. exact pathsync_spec. Qed.
+Print Assumptions C20_pathsync_spec.
+
+Theorem C20_one_vector_per_disjoint_row : forall l,
+  length (sync_vectors l) = length (filter (fun q => match r_disj q with [] => false | _ => true end) l).
+Proof. exact one_vector_per_disjoint_row. Qed.
+Print Assumptions C20_one_vector_per_disjoint_row.
+
+Theorem C20_route_objects_spec : forall q,
+  map snd (route_objects q) = r_nodes q /\
+  (NoDup (r_nodes q) -> forall i x, nth_error (r_nodes q) i = Some x ->
+                         nth_error (route_objects q) i = Some (Z.of_nat i, x)).
+Proof. exact route_objects_spec. Qed.
+Print Assumptions C20_route_objects_spec.
+
+(* partial: name correction is proved to leave everything but the route list untouched and to require both end
+   points to be transceivers; that every surviving route entry names an element of the network is tied by the
+   correspondence run and the oracle only (the first-occurrence list surgery of correct_xls_route_list is modelled,
+   its invariant is not proved) *)
+Theorem C20_correct_route_keeps_partial : forall d ru tf tu r r', correct_route d ru tf tu r = Ok r' ->
+  r_id r' = r_id r /\ r_src r' = r_src r /\ r_dst r' = r_dst r /\ r_trx r' = r_trx r /\ r_mode r' = r_mode r /\
+  r_spacing_hz r' = r_spacing_hz r /\ r_power_dbm r' = r_power_dbm r /\ r_nbch r' = r_nbch r /\
+  r_disj r' = r_disj r /\ r_loose r' = r_loose r /\ r_bw_bps r' = r_bw_bps r /\ r_bidir r' = r_bidir r /\
+  In (r_src r) tu /\ In (r_dst r) tu.
+Proof. exact correct_route_keeps. Qed.
+Print Assumptions C20_correct_route_keeps_partial.
+
+(* ---- non-vacuity ---- *)
+(* ROADM A, ROADM B, an ILA I (Eqpt row naming its second neighbour), an ILA J without row, a FUSED site F, a site K
+   declared ILA on degree 3 (becomes ROADM), asymmetric Links rows *)
+Definition ex_side (d : Q) (c : string) : side_row := mkSideRow (Some d) None None None None None (Some c).
+Definition ex_w : rows :=
+  mkRows [nd "A" "ROADM"; nd "I" "ILA"; nd "J" "ILA"; nd "B" "ROADM"; nd "F" "FUSED"; nd "K" "ILA"]
+         [mkLinkRow "A" "I" (ex_side 50 "c1") (mkSideRow (Some 70.5%Q) (Some "NZDF"%string) None None None None None);
+          mkLinkRow "B" "I" (ex_side 12.3455%Q "c2") blank_side;
+          lk "A" "J"; lk "J" "K"; lk "K" "B"; lk "K" "F"; lk "F" "A"]
+         [mkEqptRow "I" "B" (mkAmpRow (Some "std_low_gain"%string) (Some 12%Q) None (Some (-1)%Q) None None)
+                            (mkAmpRow (Some "fused"%string) None None None None None);
+          mkEqptRow "A" "I" blank_amp (mkAmpRow None (Some 20%Q) None None None None)]
+         [mkRoadmRow "A" "I" (Some (-18.5)%Q) None].
+Example ex_wellformed : wellformed ex_w.
+Proof.
+  constructor.
+  - intros c H. vm_compute in H. repeat (destruct H as [H|H]; [subst c; reflexivity|]). destruct H.
+  - intros l H. vm_compute in H. repeat (destruct H as [H|H]; [subst l; vm_compute; discriminate|]). destruct H.
+  - intros n H T. vm_compute in H.
+    repeat (destruct H as [H|H]; [subst n; try discriminate T; split; vm_compute; reflexivity|]). destruct H.
+Qed.
+Example ex_converts : exists n, convert ex_w = Ok n /\ length (elements n) = 28%nat /\ length (connections n) = 34%nat.
+Proof. eexists. split; [vm_compute; reflexivity|]. split; reflexivity. Qed.
+
+(* a duplicate (reversed) link: a violation in the sense of C20_sanity_rejects *)
+Definition ex_dup : rows := mkRows [nd "A" "ROADM"; nd "B" "ROADM"] [lk "A" "B"; lk "B" "A"] [] [].
+Example ex_violation : violation (nodes_of ex_dup) (links_of_w ex_dup) (eqpts_of_w ex_dup) /\
+                       convert ex_dup = Err (topo_err "duplicate_link").
+Proof.
+  split; [|vm_compute; reflexivity].
+  apply (V_duplicate_link _ _ _ [] [] [] (mk_link (lk "A" "B")) (mk_link (lk "B" "A"))); reflexivity.
+Qed.
+
+(* a service row: 37.5 GHz, 2 dBm, 80.0 channels, 150.5 Gbit/s, strict route, disjoint from requests 0 and r1 *)
+Definition ex_row : req_row :=
+  mkReqRow (CNum 3) (Some "A"%string) (Some "B"%string) (CStr "Voyager") (CStr "mode 1") (Some 37.5%Q) (Some 2%Q)
+           (Some 80%Q) (CStr "0 | r1") (Some "A | roadm B"%string) (Some "no"%string) (Some 150.5%Q).
+Example ex_request : exists q, request_element [("Voyager", ["mode 1"; "mode 2"])]%string false ex_row = Ok q /\
+  r_id q = Some "3"%string /\ r_spacing_hz q == 37500000000 /\ r_bw_bps q == 150500000000 /\ r_nbch q = Some 80 /\
+  r_nodes q = ["A"; "roadm B"]%string /\ r_loose q = false /\
+  pathsync q = Some (Some "3", [Some "3"; Some "0"; Some "r1"])%string.
+Proof. eexists. split; [vm_compute; reflexivity|]. repeat split; reflexivity. Qed.
